@@ -10,7 +10,9 @@
 // in phases. After every phase the harness waits for quiescence detected from
 // state (nothing pending under mq.wllock, then a run-loop barrier, then still
 // nothing pending), replays every message sent so far onto an empty
-// wantlist.New() and compares the result with the owners' intent.
+// wantlist.New() and compares the result with the owners' intent. Work that
+// never gets sent is detected from counters: no send scheduled (stall) or
+// vc35NoProgressRounds send rounds without a message.
 package messagequeue
 
 import (
@@ -53,25 +55,39 @@ const (
 
 type vc35Stratum struct {
 	name string
-	// producers wait (state-based) until no cancel for the CID is queued before
-	// re-wanting it: avoids the trigger of the cancel->re-want->cancel defect
-	avoidRewant bool
-	// RebroadcastNow is also issued concurrently with the producers
-	concurrentRebroadcast bool
+	// per-phase chance (percent) that RebroadcastNow is also issued
+	// concurrently with the producers
+	rebroadcastPct int
+	// one entry per message; phases in which one producer cancels several
+	// wants that were sent (the cancels fill the next messages on their own),
+	// asks for want-haves meanwhile and upgrades one of them to want-block a
+	// send round later, while the other producers are mostly quiet
+	upgrade bool
 }
 
+// The strata shape the workload only. Re-wants of a CID whose cancel is still
+// queued and rebroadcasts concurrent with producers used to be confined to
+// their own strata because they triggered defects that are fixed in /repo now
+// (2214f65, f9abf06, 979cd65, eb6e472); they occur in every stratum.
 var (
-	vc35Clean       = vc35Stratum{"clean", true, false}
-	vc35Rewant      = vc35Stratum{"rewant", false, false}
-	vc35Rebroadcast = vc35Stratum{"rebroadcast", true, true}
+	vc35Mixed       = vc35Stratum{"mixed", 50, false}
+	vc35Rewant      = vc35Stratum{"rewant", 0, false}
+	vc35Rebroadcast = vc35Stratum{"rebroadcast", 100, false}
+	vc35Upgrade     = vc35Stratum{"upgrade", 25, true}
 )
 
+// a send round that starts with work pending and no producer running always
+// sends a message or drops unsendable want-haves; this many rounds in a row
+// without either is reported (counted in rounds, not in time)
+const vc35NoProgressRounds = 6
+
 func vc35Main(c *vlib.Ctx) {
-	c.Rule("one case = one MessageQueue run: 2-3 producers over disjoint slices of a 10-CID pool issue AddWants/AddBroadcastWantHaves/AddCancels in 2-4 phases, x maxMsgSize {1 entry .. 2MiB} x have-support x PRNG delays inside SendMsg/SupportsHave/message construction; after each phase (and after a RebroadcastNow at rest) quiescence is detected from state and all sent messages are replayed onto an empty want-list. Strata: clean (never re-wants a CID whose cancel is still queued, no rebroadcast concurrent with producers), rewant (back-to-back cancel/re-want), rebroadcast (RebroadcastNow concurrent with producers). distinct = hash of script + observed message sequence; non-trivial = at least one cancel entry reached the peer, at least one producer call overlapped the sender's build/send interval, and the replay confirmed both a live want and a want that had been active at the peer and was cancelled")
+	c.Rule("one case = one MessageQueue run: 2-3 producers over disjoint slices of a 10-CID pool issue AddWants/AddBroadcastWantHaves/AddCancels in 2-4 phases (incl. back-to-back cancel/re-want/cancel of one CID), x maxMsgSize {1 entry .. 2MiB} x have-support x PRNG delays inside SendMsg/SupportsHave/message construction; after each phase (and after a RebroadcastNow at rest) quiescence is detected from state and all sent messages are replayed onto an empty want-list; work that stays pending is reported from counters (no send scheduled, or 6 send rounds without a message). Strata: mixed (RebroadcastNow concurrent with producers in half of the phases), rewant (none), rebroadcast (always), upgrade (one entry per message; bursts of cancels of sent wants, want-haves requested meanwhile and upgraded to want-block a send round later). distinct = hash of script + observed message sequence; non-trivial = at least one cancel entry reached the peer, at least one producer call overlapped the sender's build/send interval, and the replay confirmed both a live want and a want that had been active at the peer and was cancelled")
 	n := c.N(240, 6000)
-	c.Cases(vc35Clean.name, n*40/100, func(k *vlib.Case) { vc35Case(k, vc35Clean) })
-	c.Cases(vc35Rewant.name, n*30/100, func(k *vlib.Case) { vc35Case(k, vc35Rewant) })
-	c.Cases(vc35Rebroadcast.name, n*30/100, func(k *vlib.Case) { vc35Case(k, vc35Rebroadcast) })
+	c.Cases(vc35Mixed.name, n*35/100, func(k *vlib.Case) { vc35Case(k, vc35Mixed) })
+	c.Cases(vc35Rewant.name, n*20/100, func(k *vlib.Case) { vc35Case(k, vc35Rewant) })
+	c.Cases(vc35Rebroadcast.name, n*20/100, func(k *vlib.Case) { vc35Case(k, vc35Rebroadcast) })
+	c.Cases(vc35Upgrade.name, n*25/100, func(k *vlib.Case) { vc35Case(k, vc35Upgrade) })
 }
 
 // ---------------------------------------------------------------- script
@@ -143,11 +159,25 @@ func vc35GenScript(r *vlib.Rand, st vc35Stratum, nprod, nphase int) []vc35Phase 
 		own[i%nprod] = append(own[i%nprod], i)
 	}
 	phases := make([]vc35Phase, nphase)
+	live := make([]bool, vc35PoolSize) // the client has a live request for the CID (script order)
+	track := func(ops []vc35Op) {
+		for _, o := range ops {
+			for _, i := range o.all() {
+				live[i] = o.kind != vc35KCancel
+			}
+		}
+	}
 	for ph := range phases {
 		P := &phases[ph]
 		P.ops = make([][]vc35Op, nprod)
 		P.tickAtRest = r.Chance(1, 2)
-		if st.concurrentRebroadcast {
+		if st.upgrade && ph > 0 && r.Chance(3, 4) && vc35BurstPhase(r, P, own, live) {
+			for _, ops := range P.ops {
+				track(ops)
+			}
+			continue
+		}
+		if r.Intn(100) < st.rebroadcastPct {
 			for i, n := 0, r.Range(1, 3); i < n; i++ {
 				P.rebroadcast = append(P.rebroadcast, r.Range(0, 25000))
 			}
@@ -177,7 +207,7 @@ func vc35GenScript(r *vlib.Rand, st vc35Stratum, nprod, nphase int) []vc35Phase 
 					}
 				case x < 58:
 					o.kind, o.cids = vc35KBcast, pick(3)
-				case x < 92 || st.avoidRewant:
+				case x < 92:
 					o.kind, o.cids = vc35KCancel, pick(3)
 				default:
 					// flapping interest in one CID: cancel, want again, cancel
@@ -201,9 +231,102 @@ func vc35GenScript(r *vlib.Rand, st vc35Stratum, nprod, nphase int) []vc35Phase 
 				vc35Pace(r, &o, false)
 				P.ops[p] = append(P.ops[p], o)
 			}
+			track(P.ops[p])
 		}
 	}
 	return phases
+}
+
+// vc35BurstPhase fills P with the "upgrade" shape if some producer owns at
+// least two CIDs with a live (hence sent) request: that producer cancels 2-4 of
+// them at once, requests 1-2 want-haves, pauses for one to two send rounds and
+// upgrades one of the want-haves to want-block. The other producers are idle,
+// touch only the broadcast list, or run a short random script.
+func vc35BurstPhase(r *vlib.Rand, P *vc35Phase, own [][]int, live []bool) bool {
+	var cands []int
+	for p := range own {
+		n := 0
+		for _, i := range own[p] {
+			if live[i] {
+				n++
+			}
+		}
+		if n >= 2 {
+			cands = append(cands, p)
+		}
+	}
+	if len(cands) == 0 {
+		return false
+	}
+	star := cands[r.Intn(len(cands))]
+	var liveOwn []int
+	for _, i := range own[star] {
+		if live[i] {
+			liveOwn = append(liveOwn, i)
+		}
+	}
+	cancel := vc35Subset(r, liveOwn, 4)
+	if len(cancel) < 2 {
+		cancel = liveOwn[:2]
+	}
+	// want-haves: CIDs of the producer without a live request once the cancel ran
+	var free []int
+	for _, i := range own[star] {
+		cancelled := false
+		for _, j := range cancel {
+			cancelled = cancelled || i == j
+		}
+		if cancelled || !live[i] {
+			free = append(free, i)
+		}
+	}
+	haves := vc35Subset(r, free, 2)
+	up := haves[r.Intn(len(haves))]
+	ops := []vc35Op{
+		{kind: vc35KCancel, cids: cancel, pace: r.Intn(2)},
+		{kind: vc35KWants, haves: haves, pace: 3, paceUs: r.Range(22000, 38000)},
+		{kind: vc35KWants, blocks: []int{up}},
+	}
+	if r.Chance(1, 3) { // the want-haves come first, the cancels fill the messages after them
+		ops[0], ops[1] = ops[1], ops[0]
+		ops[0].pace, ops[0].paceUs = r.Intn(2), 0
+		ops[1].pace, ops[1].paceUs = 3, r.Range(22000, 38000)
+	}
+	vc35Pace(r, &ops[2], false)
+	if r.Chance(1, 4) { // sometimes more traffic follows
+		o := vc35Op{kind: vc35KBcast, cids: vc35Subset(r, own[star], 2)}
+		vc35Pace(r, &o, false)
+		ops = append(ops, o)
+	}
+	P.ops[star] = ops
+	for p := range own {
+		if p == star {
+			continue
+		}
+		switch x := r.Intn(10); {
+		case x < 5: // idle
+		case x < 8: // broadcast list only
+			for i, n := 0, r.Range(1, 3); i < n; i++ {
+				o := vc35Op{kind: vc35KBcast, cids: vc35Subset(r, own[p], 2)}
+				vc35Pace(r, &o, false)
+				P.ops[p] = append(P.ops[p], o)
+			}
+		default:
+			for i, n := 0, r.Range(1, 4); i < n; i++ {
+				o := vc35Op{kind: r.Intn(3), cids: vc35Subset(r, own[p], 2)}
+				if o.kind == vc35KWants {
+					if r.Bool() {
+						o.blocks, o.cids = o.cids, nil
+					} else {
+						o.haves, o.cids = o.cids, nil
+					}
+				}
+				vc35Pace(r, &o, false)
+				P.ops[p] = append(P.ops[p], o)
+			}
+		}
+	}
+	return true
 }
 
 // ---------------------------------------------------------------- world
@@ -288,6 +411,9 @@ type vc35World struct {
 	recs    [][]*vc35Rec // per producer
 	windows []vc35Window // phase-scoped concurrent rebroadcast windows
 	winMu   sync.Mutex
+
+	reported int    // violations reported by check()
+	diag     string // appended to the observation of violations reported by check()
 
 	// evidence
 	checks, cidChecks, okPresent, okCancelled int64
@@ -478,11 +604,16 @@ func vc35Case(k *vlib.Case, st vc35Stratum) {
 	}
 	w.supportsHave = r.Bool()
 	w.sendDelay, w.supDelay, w.buildDelay = r.Intn(4), r.Intn(4), r.Intn(3)
-	if st.concurrentRebroadcast && w.supDelay < 2 {
+	if st.rebroadcastPct == 100 && w.supDelay < 2 {
 		w.supDelay = r.Range(2, 3)
 	}
 	nprod := r.Range(2, 3)
 	nphase := r.Range(2, 4)
+	if st.upgrade {
+		maxMsg = []int{1, E}[r.Intn(2)] // one entry per message
+		w.supportsHave = r.Chance(5, 6)
+		nphase = r.Range(3, 4)
+	}
 	script := vc35GenScript(r.Fork("script"), st, nprod, nphase)
 	w.loopR = r.Fork("loop")
 	w.recs = make([][]*vc35Rec, nprod)
@@ -572,13 +703,13 @@ func (w *vc35World) runPhase(ph int, P vc35Phase) bool {
 		}()
 	}
 	wg.Wait()
-	if !w.quiesce() {
+	if !w.quiesce(ph) {
 		return false
 	}
 	w.check(ph, "phase-end")
 	if P.tickAtRest {
 		w.mq.RebroadcastNow()
-		if !w.quiesce() {
+		if !w.quiesce(ph) {
 			return false
 		}
 		w.check(ph, "after-rebroadcast-at-rest")
@@ -610,20 +741,6 @@ func (w *vc35World) cids(is []int) []cid.Cid {
 func (w *vc35World) produce(ph, p int, ops []vc35Op) {
 	for n, o := range ops {
 		all := o.all()
-		if w.st.avoidRewant && o.kind != vc35KCancel {
-			// wait (on state, not time) until no cancel for these CIDs is queued
-			for {
-				pk := w.peek(all)
-				queued := false
-				for _, x := range pk {
-					queued = queued || x.cancel
-				}
-				if !queued {
-					break
-				}
-				time.Sleep(200 * time.Microsecond)
-			}
-		}
 		rec := &vc35Rec{prod: p, phase: ph, n: n, op: o}
 		rec.peek = w.peek(all)
 		rec.call = w.seq.Add(1)
@@ -688,7 +805,13 @@ func (w *vc35World) barrier() {
 // third barrier. So at o2 nothing was in flight and nothing was scheduled:
 // nothing will send the pending work (short of the 15 s rebroadcast timer).
 // Reported as class stalled-pending-work, returns false.
-func (w *vc35World) quiesce() bool {
+//
+// The opposite failure, a queue that keeps scheduling sends that carry nothing,
+// is decided from counters too: vc35NoProgressRounds send rounds started
+// between two looks with the same {pending work, messages sent}. The replay
+// oracle is then applied to what has been sent so far (every want still unsent
+// is an unsent-want), and the run ends.
+func (w *vc35World) quiesce(ph int) bool {
 	type obs struct {
 		pending, msgs, signal int
 		starts                int64
@@ -699,6 +822,7 @@ func (w *vc35World) quiesce() bool {
 		w.mu.Unlock()
 		return obs{w.mq.pendingWorkCount(), n, len(w.mq.outgoingWork), w.sendStarts.Load()}
 	}
+	last := obs{pending: -1}
 	for {
 		for w.mq.pendingWorkCount() != 0 {
 			w.barrier()
@@ -707,6 +831,29 @@ func (w *vc35World) quiesce() bool {
 			o2 := look()
 			w.barrier()
 			o3 := look()
+			// no progress: messages only grow and, with no producer running,
+			// pending work only shrinks, so equal {pending, messages} at two
+			// looks means nothing was sent or dropped in between; the send
+			// rounds started in between are counted by the sender
+			if o3.pending != last.pending || o3.msgs != last.msgs {
+				last = o3
+			} else if n := o3.starts - last.starts; n >= vc35NoProgressRounds {
+				w.mq.wllock.Lock()
+				d := fmt.Sprintf("pending peer wants=%d, pending broadcast wants=%d, queued cancels=%d", w.mq.peerWants.pending.Len(), w.mq.bcstWants.pending.Len(), w.mq.cancels.Len())
+				w.mq.wllock.Unlock()
+				w.mu.Lock()
+				d += fmt.Sprintf("; messages sent=%d; last constructions: %s", o3.msgs, strings.Join(w.builds, " | "))
+				w.mu.Unlock()
+				w.k.C.Count("no_progress_detections", 1)
+				before := w.reported
+				w.diag = fmt.Sprintf("\n%d send rounds without a message while work is pending and no producer runs: %s", n, d)
+				w.check(ph, "no progress")
+				w.diag = ""
+				if w.reported == before {
+					w.k.Fail("send-rounds-without-progress", "pending work is sent once the producers stop", "every send round with pending work sends a message", d)
+				}
+				return false
+			}
 			if o1 == o2 && o2 == o3 && o2.pending != 0 && o2.signal == 0 {
 				w.mq.wllock.Lock()
 				d := fmt.Sprintf("pending peer wants=%d, pending broadcast wants=%d, queued cancels=%d; messages sent so far=%d; outgoingWork signal queued=%v",
@@ -717,8 +864,8 @@ func (w *vc35World) quiesce() bool {
 				w.mu.Lock()
 				d += fmt.Sprintf("; logical time now=%d; last constructions: %s", w.seq.Load(), strings.Join(w.builds, " | "))
 				if w.lastBuildEmptied {
-					// trigger of the known defect: sendMessage returns on an
-					// emptied message without looking at what is still pending
+					// trigger of the defect fixed in eb6e472: sendMessage returned
+					// on an emptied message without looking at what is pending
 					class = "message-emptied-during-construction/stalled-pending-work"
 					d += "; the last message built was emptied by last-minute removals"
 				}
@@ -834,8 +981,9 @@ func (w *vc35World) check(ph int, where string) {
 			}
 			k.Fail(class, "a cancelled want is never left active at the peer ("+where+")",
 				fmt.Sprintf("cid#%d absent from the replayed want-list; client intent: %s", i, vc35Intent(in)),
-				fmt.Sprintf("peer still holds cid#%d as %s\n%s", i, vc35Type(e.WantType), w.trace(ph, i, msgs)))
+				fmt.Sprintf("peer still holds cid#%d as %s\n%s", i, vc35Type(e.WantType), w.trace(ph, i, msgs)+w.diag))
 			w.tainted[i] = true
+			w.reported++
 		case must && !has:
 			class := "unsent-want"
 			if half[i] {
@@ -843,8 +991,9 @@ func (w *vc35World) check(ph int, where string) {
 			}
 			k.Fail(class, "a current want is never left unsent ("+where+")",
 				fmt.Sprintf("cid#%d active at the peer; client intent: %s (supportsHave=%v)", i, vc35Intent(in), w.supportsHave),
-				fmt.Sprintf("cid#%d absent from the replayed want-list\n%s", i, w.trace(ph, i, msgs)))
+				fmt.Sprintf("cid#%d absent from the replayed want-list\n%s", i, w.trace(ph, i, msgs)+w.diag))
 			w.tainted[i] = true
+			w.reported++
 		case has && in&vc35PB != 0 && e.WantType != pb.Message_Wantlist_Block:
 			class := "weak-type"
 			if half[i] {
@@ -852,8 +1001,9 @@ func (w *vc35World) check(ph int, where string) {
 			}
 			k.Fail(class, "peer holds the strongest requested type ("+where+")",
 				fmt.Sprintf("cid#%d as want-block; client intent: %s", i, vc35Intent(in)),
-				fmt.Sprintf("peer holds cid#%d as want-have\n%s", i, w.trace(ph, i, msgs)))
+				fmt.Sprintf("peer holds cid#%d as want-have\n%s", i, w.trace(ph, i, msgs)+w.diag))
 			w.tainted[i] = true
+			w.reported++
 		default:
 			if has {
 				w.okPresent++
@@ -886,9 +1036,9 @@ func (w *vc35World) lastCancelSent(i int, msgs []vc35Sent) uint64 {
 
 // rewantThenCancel: since the last CANCEL for cid i reached the peer, the owner
 // re-wanted it while a cancel for it was (possibly still) queued and cancelled
-// it again afterwards. This is the trigger of the known defect (the re-want
-// deletes the queued cancel); strata whose producers wait for the queued
-// cancel to be flushed can never produce it. The re-want may lie in an earlier
+// it again afterwards. This was the trigger of a defect fixed in 2214f65 (the
+// re-want deleted the queued cancel and the sent record was gone); the feature
+// only refines the class name. The re-want may lie in an earlier
 // phase: on a peer without HAVE support a re-want-have is dropped, the phase
 // ends with a (tolerated) older want at the peer and the next cancel is lost.
 func (w *vc35World) rewantThenCancel(i int, msgs []vc35Sent) bool {
@@ -916,8 +1066,8 @@ func (w *vc35World) rewantThenCancel(i int, msgs []vc35Sent) bool {
 // with the producers in the same phase. refresh() moves wants from the sent
 // list back to pending, and with a small message size limit re-sending them
 // takes several send rounds, so every cancel issued after the call (until the
-// phase's quiescent point) can fall into that window. Strata without
-// concurrent rebroadcasts can never produce it.
+// phase's quiescent point) can fall into that window (defect fixed in
+// f9abf06; the feature only refines the class name).
 func (w *vc35World) cancelAfterRebroadcast(i int, msgs []vc35Sent) bool {
 	since := w.lastCancelSent(i, msgs)
 	w.winMu.Lock()
